@@ -20,13 +20,30 @@
       with the proposed repair it holds for every table gate;
     * kets and bras are the basis vectors (all bitstrings of length ≤ 3);
     * `rewire(op, a, b)` = "op on qubits a and b", refused iff a = b — all `a, b < 4`, generic op.
+    * WHOLE CIRCUITS (Proofs/MatAlg.lean, CircuitAlg.lean, CircuitCyc8.lean, CircuitTables.lean):
+        - over EVERY commutative star ring (ℂ included: every real phase), for every well-typed list of
+          layers `1 ⊗ U ⊗ 1` (`LTyped`; box matrices `2^a × 2^b` lists of rows): the value is a `2^n × 2^m`
+          matrix; if every box satisfies `U·U† = 1` (`U†·U = 1`) so does the circuit
+          (`circuit_unitary_generic`); the reversed list of daggered layers evaluates to the conjugate
+          transpose (`circuit_dagger_generic`) — by induction over the layers from associativity of the list
+          product, the mixed-product law, `(AB)† = B†A†`, `(A⊗B)† = A†⊗B†` and the identity laws;
+        - for the executable model (`evalCirc` over ℤ[ζ₈][1/2], which is exactly that ordered product:
+          `circuit_eval_is_layers`): `circuit_unitary`, `circuit_dagger` for every well-typed circuit
+          (`Circ.codFrom n c = some m`) over the gate set `unitaryGates` = GATES, rotations, Controlled(·),
+          and all their daggers; rotations at EVERY integer phase index `n/8` (`n` even, any `n` for CU1);
+          kets/bras ≤ 4 bits and normalised scalars for the dagger; with kets the circuit is an isometry.
+          Transport: `Cyc8.val : Cyc8 → ℚ(ζ₈)` is a homomorphism for the model's normalising
+          operations and injective on normalised values (Proofs/Cyc8Ring.lean).
+        - the typing hypothesis is necessary (`circuit_unitary_needs_typing`).
   NOT PROVED (kept below as `Prop`s, decided on every run by exact correspondence + numpy oracle)
-    * `circuit_unitary`, `circuit_dagger`: the whole-circuit statements.  (That `eval` of a circuit IS the
-      ordered product of `1 ⊗ gate ⊗ 1` is the content of C09 and is the definition of `evalCirc` here.)
-    * `rewire_spec` for a symbolic `op` and for more than 4 qubits; kets/bras longer than 3 bits.
+    * `circuit_dagger` for circuits containing `Controlled(S)`, `Controlled(T)` while F2 is open (it is FALSE
+      there, `F2_witness`); kets/bras longer than 4 bits and `QuantumGate`s with arbitrary arrays inside
+      whole circuits (the per-gate hypotheses `Gate.isoOK`/`dagOK` are decidable: `circuit_unitary_of`).
+    * `rewire_spec` for a symbolic `op` and for more than 4 qubits.
 -/
 import Proofs.GatesTable
 import Proofs.GatesComplex
+import Proofs.CircuitProps
 
 namespace DV.C11
 open DV DV.Gates
@@ -196,21 +213,91 @@ theorem rewire_spec_partial :
       if p.1 = p.2 then .error .value
       else .ok (actsOn genericOp (max p.1 p.2 + 1) p.1 p.2) := rewire_table
 
+/-! ### whole circuits -/
+
+/-- `evalCirc` is the ordered product of the layers `1 ⊗ ⟦gate⟧ ⊗ 1` (the recursion `evalLayers` about
+    which the generic theorems speak). -/
+theorem circuit_eval_is_layers (n : Nat) (c : Circ) : evalCirc n c = evalLayers n (Circ.layers c) :=
+  evalCirc_eq n c
+
+/-- The value of a well-typed list of layers from `n` to `m` qubits is a `2^n × 2^m` matrix. -/
+theorem circuit_eval_shape {R : Type} [CommRing R] {n m : Nat} {L : Layers R} (h : LTyped n L m) :
+    IsMat (pow2 n) (pow2 m) (evalLayers n L) := evalLayers_isMat h
+
+/-- **Products and Kronecker products of unitaries are unitary**: over every commutative star ring, a
+    well-typed circuit whose boxes satisfy `U·U† = 1` (resp. `U†·U = 1`) satisfies the same. -/
+theorem circuit_unitary_generic {R : Type} [CommRing R] [StarRing R] {n m : Nat} {L : Layers R} :
+    (LIsometric n L m → mul (evalLayers n L) (dagger (evalLayers n L)) = idQ n) ∧
+    (LCoisometric n L m → mul (dagger (evalLayers n L)) (evalLayers n L) = idQ m) :=
+  ⟨evalLayers_isometry, evalLayers_coisometry⟩
+
+/-- **`eval(c†) = eval(c)†`** over every commutative star ring, for every well-typed list of layers. -/
+theorem circuit_dagger_generic {R : Type} [CommRing R] [StarRing R] {n m : Nat} {L : Layers R}
+    (h : LTyped n L m) : evalLayers m (Ldagger L) = dagger (evalLayers n L) := evalLayers_dagger h
+
+/-- The list-matrix laws behind them (inner dimensions positive; `IsMat m n A`: `m` rows of length `n`). -/
+theorem matrix_laws {R : Type} [CommRing R] [StarRing R] {m k l n p q : Nat} {A B C D : Mat R}
+    (hm : 0 < m) (hk : 0 < k) (hl : 0 < l) (hp : 0 < p) :
+    (IsMat m k A → IsMat k l B → IsMat l n C → mul (mul A B) C = mul A (mul B C)) ∧
+    (IsMat m k A → IsMat k n B → IsMat p l C → IsMat l q D →
+      kron (mul A B) (mul C D) = mul (kron A C) (kron B D)) ∧
+    (IsMat m k A → IsMat k n B → dagger (mul A B) = mul (dagger B) (dagger A)) ∧
+    (IsMat m n A → IsMat p q B → dagger (kron A B) = kron (dagger A) (dagger B)) ∧
+    (IsMat m k A → mul A (identity k) = A ∧ mul (identity m) A = A) :=
+  ⟨mul_assoc_of_isMat hk hl, kron_mul_kron hk hl, dagger_mul hm hk, dagger_kron hm hp,
+   fun h => ⟨mul_identity hk h, identity_mul hm h⟩⟩
+
+/-- The hypotheses of the executable instance, decidable per gate: the evaluation is a `2^dom × 2^cod`
+    matrix of normalised values and `⟦g⟧⟦g⟧† = 1`, `⟦g⟧†⟦g⟧ = 1`, `⟦g†⟧ = ⟦g⟧†`.  They hold on the whole
+    gate set … -/
+theorem gate_set_ok :
+    (∀ g ∈ unitaryGates, g.isoOK = true ∧ g.coisoOK = true ∧ g.dagOK = true) ∧
+    (∀ g ∈ unitaryGatesF2, g.isoOK = true ∧ g.coisoOK = true ∧ (f2Fixed = true → g.dagOK = true)) ∧
+    (∀ g ∈ ketGates, g.isoOK = true ∧ g.dagOK = true) ∧ (∀ g ∈ braGates, g.coisoOK = true ∧ g.dagOK = true) ∧
+    (∀ z : Cyc8, z.isNormal = true → (Gate.scalar z).dagOK = true) :=
+  ⟨unitaryGates_ok, unitaryGatesF2_ok, ketBra_ok.1, ketBra_ok.2, scalar_dagOK⟩
+
+/-- … and for rotations at EVERY integer phase index (`n` even unless CU1), by `ζ⁸ = 1`. -/
+theorem rot_every_phase_index (k : RotKind) (n : Int) (h : k = .CU1 ∨ n % 2 = 0) :
+    (Gate.rot k n).isoOK = true ∧ (Gate.rot k n).coisoOK = true ∧ (Gate.rot k n).dagOK = true :=
+  rotOK_all k n h
+
+/-- Whole circuits from the per-gate hypotheses alone (any gates, e.g. a `QuantumGate` with a custom
+    array for which they have been decided). -/
+theorem circuit_unitary_of (n m : Nat) (c : Circ) (ht : Circ.codFrom n c = some m) :
+    ((∀ x ∈ c, x.2.1.isoOK = true) → mul (evalCirc n c) (dagger (evalCirc n c)) = idQ n) ∧
+    ((∀ x ∈ c, x.2.1.coisoOK = true) → mul (dagger (evalCirc n c)) (evalCirc n c) = idQ m) ∧
+    ((∀ x ∈ c, x.2.1.dagOK = true) → evalCirc m (Circ.dagger c) = dagger (evalCirc n c)) :=
+  ⟨evalCirc_isometry ht, evalCirc_coisometry ht, evalCirc_dagger ht⟩
+
+/-- **Whole circuits: unitary when built from gates only** — every well-typed circuit over the gate set. -/
+theorem circuit_unitary (n m : Nat) (c : Circ) (ht : Circ.codFrom n c = some m)
+    (hg : ∀ x ∈ c, x.2.1.inUnitarySet) :
+    mul (evalCirc n c) (dagger (evalCirc n c)) = idQ n ∧
+    mul (dagger (evalCirc n c)) (evalCirc n c) = idQ m := circuit_unitary_cyc8 n m c ht hg
+
+/-- With state preparation (kets ≤ 4 bits) the circuit is an isometry: `⟦c⟧⟦c⟧† = 1`. -/
+theorem circuit_isometry_with_kets (n m : Nat) (c : Circ) (ht : Circ.codFrom n c = some m)
+    (hg : ∀ x ∈ c, x.2.1.inUnitarySet ∨ x.2.1 ∈ ketGates) :
+    mul (evalCirc n c) (dagger (evalCirc n c)) = idQ n := circuit_isometry_cyc8 n m c ht hg
+
+/-- **Whole circuits: the dagger evaluates to the conjugate transpose** (kets, bras, scalars included;
+    `Controlled(S)`, `Controlled(T)` with F2 repaired). -/
+theorem circuit_dagger (n m : Nat) (c : Circ) (ht : Circ.codFrom n c = some m)
+    (hg : ∀ x ∈ c, x.2.1.inDaggerSet) :
+    evalCirc m (Circ.dagger c) = dagger (evalCirc n c) := circuit_dagger_cyc8 n m c ht hg
+
+/-- … and the dagger of a well-typed circuit is well typed the other way round. -/
+theorem circuit_dagger_typed (n m : Nat) (c : Circ) (ht : Circ.codFrom n c = some m) :
+    Circ.codFrom m (Circ.dagger c) = some n := Circ.dagger_codFrom ht
+
+/-- The typing hypothesis is necessary: `H` as a layer on 2 qubits is ill typed and its "value" is not unitary. -/
+theorem circuit_unitary_needs_typing :
+    Circ.codFrom 2 [(0, .q gH, 0)] = none ∧
+    mul (evalCirc 2 [(0, .q gH, 0)]) (dagger (evalCirc 2 [(0, .q gH, 0)])) ≠ idQ 2 :=
+  Gates.circuit_unitary_needs_typing
+
 /-! ### full statements that are NOT proved (decided by correspondence + oracle on every run) -/
-
-/-- A gate of the language that is neither a ket, a bra nor a scalar. -/
-def Gate.isUnitaryKind : Gate → Bool
-  | .ket _ | .bra _ | .scalar _ => false
-  | _ => true
-
-/-- Whole circuits: unitary when built from gates only. -/
-def circuit_unitary : Prop :=
-  ∀ (n : Nat) (c : Circ), (∀ l ∈ c, Gate.isUnitaryKind l.2.1 = true) →
-    mul (evalCirc n c) (dagger (evalCirc n c)) = idQ n
-
-/-- Whole circuits: the dagger evaluates to the conjugate transpose (with F2 repaired). -/
-def circuit_dagger : Prop :=
-  ∀ (n m : Nat) (c : Circ), evalCirc m (Circ.dagger c) = dagger (evalCirc n c)
 
 /-- `rewire` for every 4 × 4 `op` and every `(a, b)`. -/
 def rewire_spec : Prop :=
@@ -223,6 +310,29 @@ example : evalCirc 0 [(0, .ket [true, false], 0), (0, .q gH, 1), (0, .ctrl (.q g
     [[Cyc8.invSqrt2, 0, 0, -Cyc8.invSqrt2]] := by decide
 example : rewireMat (R := Int) genericOp 2 0 ≠ .ok (kron genericOp (idQ 1)) := by decide
 example : (pairs 4).length = 16 ∧ named.length = 9 ∧ bitstringsUpTo3.length = 15 := by decide
+/-- A concrete circuit meeting the hypotheses of `circuit_unitary` / `circuit_dagger`
+    (negative phase index included). -/
+def c0 : Circ := [(0, .q gH, 1), (0, .ctrl (.q gX), 0), (1, .rot .Rz (-6), 0), (0, .q gS.dagger, 1)]
+example : Circ.codFrom 2 c0 = some 2 := by decide
+example : ∀ x ∈ c0, x.2.1.inUnitarySet ∧ x.2.1.inDaggerSet := by
+  intro x hx
+  simp only [c0, List.mem_cons, List.not_mem_nil, or_false] at hx
+  rcases hx with rfl | rfl | rfl | rfl
+  · exact ⟨.inl (by simp [unitaryGates, unitaryBase, tableGates, named]),
+           .inl (by simp [unitaryGates, unitaryBase, tableGates, named])⟩
+  · exact ⟨.inl (by simp [unitaryGates, unitaryBase, tableGates, named]),
+           .inl (by simp [unitaryGates, unitaryBase, tableGates, named])⟩
+  · exact ⟨.inr (.inr ⟨.Rz, -6, rfl, .inr (by decide)⟩), .inr (.inr (.inl ⟨.Rz, -6, rfl, .inr (by decide)⟩))⟩
+  · exact ⟨.inl (by simp [unitaryGates, unitaryBase, tableGates, named, Gate.dagger]),
+           .inl (by simp [unitaryGates, unitaryBase, tableGates, named, Gate.dagger])⟩
+example : evalCirc 2 c0 ≠ idQ 2 := by decide
+/-- The generic theorem at ℂ, every pair of real phases: `Rx(φ) ⊗ 1` then `CRz(ψ)` is unitary. -/
+example (φ ψ : ℝ) :
+    mul (evalLayers 2 [(0, RxC φ, 1), (0, CRzC ψ, 0)]) (dagger (evalLayers 2 [(0, RxC φ, 1), (0, CRzC ψ, 0)]))
+      = idQ 2 :=
+  evalLayers_isometry (LIsometric.cons (l := 0) (a := 1) (b := 1) (r := 1) (by simp [IsMat, RxC, rx, pow2]) (rot_unitary_complex φ).1
+    (LIsometric.cons (l := 0) (a := 2) (b := 2) (r := 0) (by simp [IsMat, CRzC, crz, pow2]) (rot_unitary_complex ψ).2.2.2.2.2.1
+      (LIsometric.nil 2)))
 /-- The star-ring hypotheses of the symbolic theorems hold in ℂ at φ = 0.3 (and every φ). -/
 example : nuC 0.3 * nuC (-0.3) = 1 ∧ 2 * cC 0.3 = nuC 0.3 + nuC (-0.3) := ⟨hyp_nu _, hyp_c _⟩
 
